@@ -9,10 +9,10 @@ Definition ex_opts : dopts := mkO false false false true (fun s => s).
 (* class C0: a: int (alias "A"); b: Optional[C0] = None; c: Dict[str, Tuple[int, float]] = {} ; d: Union[int, str, List[bool]] *)
 Definition ex_cls : cdef :=
   mkCls KData
-    [ mkF "a" "A" TInt true VNone false (Some (mkC (Some (CI 0)) None None None None None None None None None false None None));
-      mkF "b" "b" (TUnion [TObj 0; TNone]) false VNone false None;
-      mkF "c" "c" (TMap TStr (TTuple [TInt; TFloat])) false (VDict []) false None;
-      mkF "d" "d" (TUnion [TInt; TStr; TColl KList TBool]) false (VInt 0) false None ] [("a", ["d"])].
+    [ mkF "a" "A" TInt true VNone false (Some (mkC (Some (CI 0)) None None None None None None None None None false None None)) no_fser;
+      mkF "b" "b" (TUnion [TObj 0; TNone]) false VNone false None no_fser;
+      mkF "c" "c" (TMap TStr (TTuple [TInt; TFloat])) false (VDict []) false None no_fser;
+      mkF "d" "d" (TUnion [TInt; TStr; TColl KList TBool]) false (VInt 0) false None no_fser ] [("a", ["d"])] [] [] false.
 
 Definition ex_univ : univ := mkU [ex_cls] [[LInt 1; LStr "x"]].
 Definition ex_ty : ty := TColl KList (TUnion [TObj 0; TEnum 0]).
